@@ -16,7 +16,7 @@ def is_c15(d):
     return d.get('component') in ('lg_prediction', 'language_graph_raises')
 
 
-QUICK_PLAN = [('LSet', 4, {}), ('LTrans', 4, {}), ('LVar', 3, {}), ('LDef', 3, {}), ('LInh', 3, {}), ('LDup', 3, {}),
+QUICK_PLAN = [('LSet', 5, {}), ('LTrans', 4, {}), ('LVar', 3, {}), ('LDef', 3, {}), ('LInh', 3, {}), ('LDup', 3, {}),
               ('LTiny', 4, {}), ('LSame', 3, {}), ('LOne', 3, {})]
 THOROUGH_PLAN = [('LSet', 6, {}), ('LTrans', 6, {'VERIF_MAXASSOCS': 4}), ('LVar', 6, {}), ('LDef', 5, {}),
                  ('LInh', 4, {}), ('LDup', 5, {}), ('LTiny', 6, {'VERIF_MAXASSOCS': 4}), ('LSame', 5, {}), ('LOne', 5, {})]
